@@ -243,7 +243,7 @@ fn enum_feeds() -> Vec<Feed> {
 fn run(ctx: &Ctx) {
     if ctx.profile == "unopt" {
         // the extra shard built without optimisation: long runs only, on a 2 MiB stack
-        ctx.run_cases("sampled-long", ctx.tier.pick(600, 6_000), long_strategy(), check_small_stack);
+        ctx.run_cases("sampled-long", ctx.tier.pick(600, 2_000), long_strategy(), check_small_stack);
         return;
     }
     // ---- complete small scope ----
